@@ -2021,17 +2021,27 @@ impl Registry {
             traverse_type(ctx, &self.types, &mut visible_types, ty.name());
         }
 
-        for ty in self.types.values() {
-            if let MetaType::Interface { possible_types, .. } = ty
-                && ty.is_visible(ctx)
-                && !visible_types.contains(ty.name())
-            {
-                for type_name in possible_types.iter() {
-                    if visible_types.contains(type_name.as_str()) {
-                        traverse_type(ctx, &self.types, &mut visible_types, ty.name());
-                        break;
+        // an interface is visible as soon as one of its implementors is; traversing it can make
+        // further implementors (and through them further interfaces) visible, so repeat until
+        // nothing changes instead of relying on the alphabetical order of the interface names
+        loop {
+            let mut changed = false;
+            for ty in self.types.values() {
+                if let MetaType::Interface { possible_types, .. } = ty
+                    && ty.is_visible(ctx)
+                    && !visible_types.contains(ty.name())
+                {
+                    for type_name in possible_types.iter() {
+                        if visible_types.contains(type_name.as_str()) {
+                            traverse_type(ctx, &self.types, &mut visible_types, ty.name());
+                            changed = true;
+                            break;
+                        }
                     }
                 }
+            }
+            if !changed {
+                break;
             }
         }
 
